@@ -794,6 +794,48 @@ def work_invariance(task, res: Result):
 
 
 
+LOOSE_OPTS = {"abs_ipm_opt_tol": 1e-2, "rel_ipm_opt_tol": 1e-2, "abs_prim_fsb_tol": 1e-2, "rel_prim_fsb_tol": 1e-2, "abs_dual_fsb_tol": 1e-2, "rel_dual_fsb_tol": 1e-2}
+
+
+def work_history(task, res: Result):
+    """the value of a call does not depend on what was computed before it in the same process: default call on ensemble A, then a call on
+    another ensemble B with coarse solver options handed over through **kwargs (a documented argument), then the default call on A again.
+    The solver is deterministic, so the two values of A must coincide (to 1e-9); options that outlive the call they were given to show here."""
+    from toqito.state_opt import state_exclusion
+    warnings.filterwarnings("ignore")
+    instA, instB, strategy, pd = task
+    sa, sb = [np.asarray(x) for x in instA["states"]], [np.asarray(x) for x in instB["states"]]
+    desc = dict(_base(instA), fn="history", strategy=strategy, primal_dual=pd, other={"states": sb, "probs": instB["probs"]}, options=LOOSE_OPTS)
+
+    def default_call():
+        return float(_limited(state_exclusion, [x.copy() for x in sa], list(instA["probs"]), strategy=strategy, primal_dual=pd)[0])
+    try:
+        v0 = default_call()
+    except TaskTimeout:
+        raise
+    except (Exception, CallTimeout):
+        res.case(desc, False, "history/first-call-fails")
+        return
+    try:
+        _limited(state_exclusion, [x.copy() for x in sb], list(instB["probs"]), strategy=strategy, primal_dual=pd, **LOOSE_OPTS)
+    except TaskTimeout:
+        raise
+    except (Exception, CallTimeout):
+        res.count("history/coarse-call-raises")
+    res.case(desc, v0 > 1e-3, f"history/{strategy}/{pd}")
+    try:
+        v1 = default_call()
+    except TaskTimeout:
+        raise
+    except (Exception, CallTimeout) as e:
+        res.violation(f"state_exclusion({strategy},{pd}) raises {type(e).__name__} on an ensemble it solved before a call with other solver options was made",
+                      {"function": "state_exclusion", "args": desc, "values": [v0, None], "check": "history"})
+        return
+    if not abs(v0 - v1) <= 1e-9:
+        res.violation(f"state_exclusion({strategy},{pd}) depends on the calls made before it: {v0!r} before, {v1!r} after a call with coarse solver options on another ensemble",
+                      {"function": "state_exclusion", "args": desc, "values": [v0, v1], "check": "history"})
+
+
 # ------------------------------------------------------------------------------------------------
 # stream `embedding`: the picos programs that state_exclusion BUILDS (captured at Problem.solve, never solved) against the
 # programs the theorems are about (Lean `excl_program`: prepare + the slack functions used by the verified checkers)
@@ -1310,6 +1352,13 @@ def run(ctx, model_ok=True):
             U = np.real(U)
         inv.append((inst, U, [int(x) for x in rng.permutation(inst["k"])]))
     run_pool(ctx, work_invariance, inv)
+    # ---- history independence: values before and after a call that hands solver options over
+    hist = []
+    for i, (st, pd) in enumerate([("min_error", "primal"), ("min_error", "dual"), ("unambiguous", "primal"), ("unambiguous", "dual")] * (5 if quick else 16)):
+        cand = [x for x in insts if x["form"] in ("vec1d", "col") and min(x["probs"]) > 0] if st == "unambiguous" else insts
+        if len(cand) >= 2:
+            hist.append((cand[(2 * i) % len(cand)], cand[(2 * i + 1) % len(cand)], st, pd))
+    run_pool(ctx, work_history, hist)
     # ---- the programs the code builds against the modelled programs (no solve), the arithmetic around the solve, the named constructors
     emb = (insts[:40] + fam[::3]) if quick else (insts[:400] + fam)
     run_pool(ctx, work_embed, [(inst, int(rng.integers(2 ** 31))) for inst in emb])
